@@ -1214,3 +1214,14 @@ M('c17-lazy-opener-exit-returns-true', 'C17', "        if self._fhandle is not N
 M('c17-lock-pack-swallows', 'C17', "                with open(pack_file, 'ab') as pack_handle:\n                    yield pack_handle\n        finally:", "                with open(pack_file, 'ab') as pack_handle:\n                    yield pack_handle\n        except OSError:\n            pass\n        finally:", 'C17.R5')
 M('c18-dispose-only-on-request', 'C18', "    def _close_operation_session(self) -> None:\n        if self._operation_session is not None:\n            binding = self._operation_session.bind\n            self._operation_session.close()\n            if isinstance(binding, Engine):\n                binding.dispose()", "    def _close_operation_session(self, dispose_engine: bool = True) -> None:\n        if self._operation_session is not None:\n            binding = self._operation_session.bind\n            self._operation_session.close()\n            if dispose_engine and isinstance(binding, Engine):\n                binding.dispose()", 'C18.R1c')
 M('c18-loosen-through-whole-content', 'C18', "        with self.get_object_stream(hashkey) as stream:\n            # This always rewrites it as loose\n            written_hashkey = self.add_streamed_object(stream)", "        written_hashkey = self.add_object(self.get_object_content(hashkey))", 'C18.R5')
+M('c05-do-commit-default-false', 'C05', "        callback: Callable | None = None,\n        callback_size_hint: int = 0,\n        do_fsync: bool = True,\n        do_commit: bool = True,", "        callback: Callable | None = None,\n        callback_size_hint: int = 0,\n        do_fsync: bool = True,\n        do_commit: bool = False,", 'C05.R7')
+M('c02-mutable-default-known-keys', 'C02', "    def has_objects(self, hashkeys: list[str] | tuple[str, ...]) -> list[bool]:", "    def has_objects(self, hashkeys: list[str] | tuple[str, ...], _seen: set = set()) -> list[bool]:", 'C02.R8')
+M('c02-class-level-cache', 'C02', "    _REPACK_PACK_ID = -1\n", "    _REPACK_PACK_ID = -1\n    _KNOWN_KEYS: dict = {}\n", 'C02.R8')
+
+# ------------------------------------------------------------------------------------------------ round 5 batch 1
+M('c01-known-keys-cached-on-handle', 'C01', "            known_packed_hashkeys = set()\n            # I need to get the full list of PKs", "            known_packed_hashkeys = self._known = getattr(self, '_known', None) or set()\n            # I need to get the full list of PKs", 'C01.R2')
+M('c09-known-keys-cached-on-handle', 'C09', "            known_packed_hashkeys = set()\n            # I need to get the full list of PKs", "            known_packed_hashkeys = self._known = getattr(self, '_known', None) or set()\n            # I need to get the full list of PKs", 'C09.R4')
+M('c01-pack-writer-getvalue-shortcut', 'C01', "        count_read_bytes = 0\n        while True:\n            chunk = read_handle.read(self._CHUNKSIZE)\n            if chunk == b'':", "        count_read_bytes = 0\n        if isinstance(read_handle, io.BytesIO):\n            pack_handle.write(read_handle.getvalue())\n        while True:\n            chunk = read_handle.read(self._CHUNKSIZE)\n            if chunk == b'':", 'C01.R1')
+M('c05-funnel-drops-scratch-pack-rows', 'C05', "        for pack_int_id, pack_metadata in packs.items():\n            pack_metadata.sort(key=lambda metadata: metadata.offset)\n            hashkeys_in_packs.update", "        packs.pop(self._REPACK_PACK_ID, None)\n        for pack_int_id, pack_metadata in packs.items():\n            pack_metadata.sort(key=lambda metadata: metadata.offset)\n            hashkeys_in_packs.update", 'C05.R4')
+M('c16-funnel-drops-scratch-pack-rows', 'C16', "        for pack_int_id, pack_metadata in packs.items():\n            pack_metadata.sort(key=lambda metadata: metadata.offset)\n            hashkeys_in_packs.update", "        packs.pop(self._REPACK_PACK_ID, None)\n        for pack_int_id, pack_metadata in packs.items():\n            pack_metadata.sort(key=lambda metadata: metadata.offset)\n            hashkeys_in_packs.update", 'C16.R1')
+M('c02-session-reset-at-unreviewed-site', 'C02', "        number_packed = self._get_operation_session().scalar(select(func.count()).select_from(Obj))", "        self._close_operation_session()\n        number_packed = self._get_operation_session().scalar(select(func.count()).select_from(Obj))", 'C02.R7')
